@@ -195,6 +195,9 @@ pub enum VerifEvent {
     /// The retransmission timer was found expired by the send path (the datagram that follows in
     /// this poll, if any, is timer-driven).
     RetransmitTimerExpired { id: VsockId },
+    /// A transmitted MTU probe was declared failed on a timer expiry and taken back (its bytes
+    /// are cut again into smaller segments).
+    MtuProbeExpired { id: VsockId, payload_size: usize },
     /// State of the socket dispatcher's tables at the start of one loop iteration.
     SocketTables {
         local: SocketAddr,
